@@ -21,11 +21,19 @@ MinR(S) == CHOOSE x \in S : \A y \in S : Leq(x, y)
 
 \* ---- a scenario: P = pipe throughput (0 = unbounded), xs = transfers [s, v, l, c]:
 \*      start date s, volume v, limit l (0 = the pipe's throughput), c > 0: cancelled at date s + c
+\*      limit Huge stands for a "practically unlimited" transfer (the harness passes 1e17): the fluid model is
+\*      taken in the limit l -> infinity - while such a transfer is active on a bounded pipe, the huge ones share
+\*      the whole throughput equally and everybody else stands still (their progress, of relative order 1e-17,
+\*      is far below the property's floating point tolerance)
+Huge == 99
+IsHuge(x) == x.l = Huge
 Limit(P, x) == IF x.l = 0 THEN P ELSE x.l
 \* rate of transfer i given the set `run` of active transfers
 Rate(P, xs, run, i) ==
-  LET lim == Limit(P, xs[i]) IN
+  LET lim == Limit(P, xs[i])
+      huge == {j \in run : IsHuge(xs[j])} IN
   IF P = 0 THEN R(lim)                                           \* unbounded pipe: own limit (0 = infinite)
+  ELSE IF huge # {} THEN (IF i \in huge THEN Norm(P, Cardinality(huge)) ELSE R(0))
   ELSE LET dem == LET RECURSIVE sum(_) sum(S) == IF S = {} THEN 0 ELSE
                         LET j == CHOOSE j \in S : TRUE IN Limit(P, xs[j]) + sum(S \ {j}) IN sum(run) IN
        IF dem > P THEN Norm(lim * P, dem) ELSE R(lim)
@@ -47,7 +55,7 @@ Fluid(P, xs, t, st, rem, end, fuel) ==
            st1 == [i \in I |-> IF st[i] = "run" /\ rem1[i][1] = 0 THEN "done"
                                ELSE IF st[i] \in {"wait", "run"} /\ xs[i].c > 0 /\ R(xs[i].s + xs[i].c) = tn THEN "cancelled"
                                ELSE IF st[i] = "wait" /\ R(xs[i].s) = tn
-                                    THEN (IF xs[i].v = 0 \/ (P = 0 /\ xs[i].l = 0) THEN "done" ELSE "run")
+                                    THEN (IF xs[i].v = 0 \/ (P = 0 /\ (xs[i].l = 0 \/ IsHuge(xs[i]))) THEN "done" ELSE "run")
                                ELSE st[i]]
            end1 == [i \in I |-> IF st1[i] # st[i] /\ st1[i] \in {"done", "cancelled"} THEN tn ELSE end[i]] IN
        Fluid(P, xs, tn, st1, rem1, end1, fuel - 1)
